@@ -65,6 +65,7 @@ pub struct Stats {
     pub tamper_cases: u64,
     pub tamper_rejected: u64,
     pub tamper_accepted: u64,
+    pub tamper_demoted: u64,
     pub clear_cases: u64,
     pub retention_cases: u64,
     pub retention_deleting: u64,
@@ -296,6 +297,15 @@ fn part2(tier: &str, wi: usize, wn: usize, scratch: &Scratch, st: &mut Stats) {
         let iid = im.id;
         targets.push(("incremental".into(), Box::new(move |r, o| r.restore_from_backup_with_options(iid, o)), model.clone()));
     }
+    // the same two restore points through the point-in-time path (its own preflight: the chain is
+    // selected by timestamp, and every archive of the chain must be verified before the target is
+    // cleared)
+    let fts = full.timestamp;
+    targets.push(("pitr-at-full".into(), Box::new(move |r, o| r.restore_point_in_time_with_options(fts, o)), model_full.clone()));
+    if let Ok(im) = &incr {
+        let its = im.timestamp;
+        targets.push(("pitr-at-incremental".into(), Box::new(move |r, o| r.restore_point_in_time_with_options(its, o)), model.clone()));
+    }
     let sentinel: BTreeMap<String, Vec<u8>> = [("SENTINEL".to_string(), b"do not touch".to_vec()), ("wal_1.wal".to_string(), vec![1, 2, 3])].into_iter().collect();
     let pats: Vec<u8> = if tier == "thorough" { vec![0x01, 0x80, 0x00, 0xFF] } else { vec![0x01, 0xFF] };
     // structural field of an archive offset: [u32 count] then per member
@@ -389,7 +399,14 @@ fn part2(tier: &str, wi: usize, wn: usize, scratch: &Scratch, st: &mut Stats) {
                             Err(e) => st.viol.push((format!("C12|tamper|{role}|accepted-but-restored-directory-does-not-start|restoring-{tname}"), ctx(format!("{e:#}")))),
                             Ok(rb) => {
                                 let d = dump_backend(&rb);
-                                if dump_vs_model(cfg.metric(), &d, expect).is_err() {
+                                // point in time = "the newest backup at or before T": when the
+                                // altered file is a metadata file and the incremental thereby drops
+                                // out of the selection (unparseable, or its timestamp moved past T),
+                                // restoring the intact full backup is the right answer for T
+                                let demoted = role.starts_with("metadata") && tname == "pitr-at-incremental" && dump_vs_model(cfg.metric(), &d, &model_full).is_ok();
+                                if demoted {
+                                    st.tamper_demoted += 1;
+                                } else if dump_vs_model(cfg.metric(), &d, expect).is_err() {
                                     st.viol.push((format!("C12|tamper|{role}|accepted-with-wrong-collection|restoring-{tname}"), ctx(format!("restored {}", vcore::dump_to_json(&d)))));
                                 }
                             }
